@@ -12,7 +12,7 @@ CLAIMS = {
    text="Coq theorems for every parameter, attempt number and random-source outcome: fixed, random range, limit, jitter pass-through / band / never-negative / saturation, stop-stays-stop, exponential value and upper clamp. The float facts (ordering of the two saturated jitter products, exponential never below initial for Pow > 1, monotone in the Pow oracle) are proved through Flocq's real-number semantics (Properties/C05Float.v).",
    note="Model: Pure/Retry.v (hand-written; random source = explicit word stream; math.Pow = oracle value supplied by the harness from Go). Tie: differential run against /repo with a deterministic fastrand stub. Axiom-free."),
  "C18": dict(category="proof", ref="5.18", technique="Coq proof + executable-model correspondence",
-   text="Coq theorems for all byte strings: the parser model never slices/indexes out of range (no panic), accepts exactly key=fields with documented defaults and decimal-int64 / float fields, returns exactly the direct constructor's value, rejects everything else with an error; layers fold in insertion order. Model compared with the real builder on grammar-generated, mutated and raw-byte strings each run.",
+   text="Coq theorems for all byte strings: the parser model never slices/indexes out of range (no panic), accepts exactly key=fields with documented defaults and decimal-int64 / float fields, returns exactly the direct constructor's value, rejects everything else with an error; layers fold in insertion order. All builder call sequences: the BackoffBuilder is modelled as a state machine (Pure/Builder.v) and after ANY sequence of BaseBackoffSpec / BaseBackoff / WithLimit / WithJitter / WithJitterBound / Build calls a Build returns what the calls so far determine (last explicit base, else the LAST specification, layers in order: C18_builder_call_sequences), building again gives the same, no sequence panics. Model compared with the real builder on grammar-generated, mutated and raw-byte strings and on random builder call sequences each run.",
    note="Model: Pure/Spec.v (hand-written; strconv.ParseInt modelled exactly and diffed separately; strconv.ParseFloat an oracle). Result structure read from the Go objects by reflection. Axiom-free."),
 }
 
